@@ -32,7 +32,7 @@ Definition verdict (tag : bytes) (model : bytes) (inst decisive known : bool) (f
 Definition tcp_fclaim (s o : tcp_sig) : option (bytes * bool) :=
   match find (fun f => single_field_off f s o) all_tcp_fields with
   | Some f => Some (if field_differs_comparably f s o then show_dist tcp_score (Some (field_penalty f)) else bs "-",
-                    known_tcp s o)
+                    false)
   | None => None end.
 Definition http_fclaim (s o : http_sig) : option (bytes * bool) :=
   if expsw_off s o then Some (show_dist http_score (Some pen_expsw), optional_name_reused s || expsw_reversed s o) else None.
@@ -44,7 +44,7 @@ Definition run_line (l : bytes) : bytes :=
         match parse_tcp s, parse_tcp o with
         | Some sg, Some ob =>
             verdict tag (show_dist tcp_score (tcp_distance sg ob))
-                    (tcp_instance_b sg ob) (tcp_decisive_mismatch_b sg ob) (known_tcp sg ob) (tcp_fclaim sg ob)
+                    (tcp_instance_b sg ob) (tcp_decisive_mismatch_b sg ob) false (tcp_fclaim sg ob)
         | _, _ => bad end
       else if bytes_eqb k (bs "H") || bytes_eqb k (bs "R") then
         match parse_http s, parse_http o with
